@@ -70,5 +70,11 @@ example : (runSched (init [[[97]], [[98], [99]]] 2)
 theorem streams_skeletons : Skeletons.StreamsShape := Skeletons.streams_shape
 theorem line_skeletons : Skeletons.LineShape := Skeletons.line_shape
 theorem dispatch_skeletons : Skeletons.DispatchShape := Skeletons.dispatch_shape
+theorem f_vm_vm_skeletons : Skeletons.F_vm_vmShape := Skeletons.f_vm_vm_shape
+theorem f_runtime_runtime_skeletons : Skeletons.F_runtime_runtimeShape := Skeletons.f_runtime_runtime_shape
+theorem f_mtail_mtail_skeletons : Skeletons.F_mtail_mtailShape := Skeletons.f_mtail_mtail_shape
+theorem f_logstream_filestream_skeletons : Skeletons.F_logstream_filestreamShape := Skeletons.f_logstream_filestream_shape
+theorem f_tailer_tail_skeletons : Skeletons.F_tailer_tailShape := Skeletons.f_tailer_tail_shape
+theorem f_logstream_logstream_skeletons : Skeletons.F_logstream_logstreamShape := Skeletons.f_logstream_logstream_shape
 
 end MtailVerif.C19
